@@ -2,5 +2,5 @@
 From Burrow Require Import Int64 Wire WireEnc.
 Require Import ExtrOcamlBasic.
 Extraction "model.ml"
-  process_message_gen process_message process_message_unrepaired msg_group sumz reader_accept
+  process_message_gen process_message process_message_unrepaired msg_group sumz reader_accept address process_message_for
   enc_offset_key enc_offset_value enc_meta_key enc_meta_value.
